@@ -5,11 +5,32 @@ open Layout
 open List
 open Nat
 
+type value =
+| VS of coq_Z
+| VArr of value list
+| VStruct of value list
+
 type step =
 | SElem of coq_Z
 | SMember of nat
 
 type path = step list
+
+type cell =
+| CPad
+| CFrag of coq_Z * coq_Z * coq_Z
+
+type mem = coq_Z -> cell
+
+val scalar_size : ty -> coq_Z
+
+val enc : ty -> value -> coq_Z -> cell
+
+val store : mem -> coq_Z -> ty -> value -> mem
+
+val check_frag : mem -> coq_Z -> coq_Z -> coq_Z -> coq_Z -> nat -> bool
+
+val load_scalar : mem -> coq_Z -> coq_Z -> coq_Z option
 
 val gep_offset : ty -> path -> (coq_Z * ty) option
 
@@ -21,6 +42,10 @@ type lt =
 | LStruct of lt list
 
 val erase : lt -> ty
+
+val erase_list : lt list -> ty list
+
+val lsize : lt -> coq_Z
 
 val slice_lt : lt -> lt
 
@@ -76,6 +101,13 @@ val lower_ref : base_kind -> rstep list -> instr list
 val lower_steps_pinned : rstep list -> gidx list -> bool -> instr list
 
 val lower_ref_pinned : base_kind -> rstep list -> instr list
+
+type loc =
+| LocMem of coq_Z * lt
+| LocPtr of coq_Z * lt
+| LocSlice of coq_Z * coq_Z * lt
+
+val sem_step : mem -> loc -> rstep -> loc option
 
 val ref_instrs : base_kind -> pty -> path -> instr list option
 
